@@ -50,6 +50,11 @@ type Node struct {
 func (s *Node) Merge(other *Node) {
 	s.Kinds = s.Kinds.Add(other.Kinds...)
 
+	// A kind that is present after the merge must not remain tracked as deleted
+	for _, otherKind := range other.Kinds {
+		s.DeletedKinds = s.DeletedKinds.Remove(otherKind)
+	}
+
 	for _, otherKind := range other.AddedKinds {
 		s.DeletedKinds = s.DeletedKinds.Remove(otherKind)
 	}
